@@ -114,6 +114,57 @@ def install():
     def end(self, tag):
         return call(self, 'end', o_end, tag, None)
     P.__init__ = init; P.start = start; P.end = end
+    install_filter()
+
+# ---- the first pass of a filtered load (FilterOrthoXMLParser): same wrapping, its own trace
+F = pyham.parsers.FilterOrthoXMLParser
+LASTF = [None]
+
+def fobs_of(p):
+    return '%d,%d,%d,%d,%d' % (len(p.geneUniqueId), len(p.hogsId), len(p.hog_stack), len(p.hog_generef), 1 if p.add_this_hog else 0)
+
+def install_filter():
+    o_init, o_start, o_end = F.__init__, F.start, F.end
+    def init(self, *a, **k):
+        o_init(self, *a, **k)
+        t = Trace()
+        fo = self.filterObj
+        t.queries = tuple(sorted(map(str, getattr(fo, n_))) for n_ in ('HOGId_filter', 'GeneExtId_filter', 'GeneIntId_filter'))
+        self._verif_trace = t
+        LASTF[0] = t
+    def call(self, kind, orig, tag, attrib):
+        t = getattr(self, '_verif_trace', None)
+        if t is None or t.overflow:
+            return orig(self, tag, attrib) if kind == 'start' else orig(self, tag)
+        ev = event_of(kind, tag, attrib or {})
+        try:
+            r = orig(self, tag, attrib) if kind == 'start' else orig(self, tag)
+        except Exception as e:      # noqa
+            if ev is not None:
+                t.events.append(ev); t.end = 'err:' + err_name(e)
+            else:
+                t.end = 'err-at-foreign-call:' + err_name(e)
+            t.overflow = True
+            raise
+        if ev is not None:
+            if len(t.events) >= MAX_EVENTS:
+                t.overflow = True; t.end = 'overflow'
+            else:
+                t.events.append(ev); t.obs.append(fobs_of(self))
+        return r
+    F.__init__ = init
+    F.start = lambda self, tag, attrib: call(self, 'start', o_start, tag, attrib)
+    F.end = lambda self, tag: call(self, 'end', o_end, tag, None)
+
+def last_filter():
+    t = LASTF[0]
+    if t is None or t.end == 'overflow' or t.end.startswith('err-at-foreign-call'):
+        return None
+    return t
+
+def query_filter(t):
+    h, e, i = t.queries
+    return '(saxf (hog %s) (ext %s) (int %s) %s)' % (' '.join(map(q, h)), ' '.join(map(q, e)), ' '.join(map(q, i)), ' '.join(t.events))
 
 def last():
     """the trace of the most recent load in this process (None if it was too large)"""
@@ -124,6 +175,7 @@ def last():
 
 def reset():
     LAST[0] = None
+    LASTF[0] = None
 
 def query(t):
     """the driver query replaying the recorded calls"""
